@@ -746,6 +746,7 @@ fn res_of(r: Result<anything::Numeric, anything::Error>, detail: bool) -> Res {
                     is_one: v.value.is_one(),
                     unit_singular: v.unit.display(false).to_string(),
                     unit_plural: v.unit.display(true).to_string(),
+                    unit_parts: unit_parts(&v.unit),
                 })
             } else {
                 None
@@ -757,6 +758,32 @@ fn res_of(r: Result<anything::Numeric, anything::Error>, detail: bool) -> Res {
             Res::Err { msg: e.to_string(), start: r.start, end: r.end }
         }
     }
+}
+
+/// Take a compound unit apart through its serialised form and let the library render every entry on
+/// its own (in the library's own order of units). Empty when the representation is not the expected
+/// `{names: {unit: {power, prefix}}}`.
+fn unit_parts(u: &anything::Compound) -> Vec<UnitPart> {
+    use serde_cbor::Value as V;
+    use std::iter::FromIterator;
+    let Ok(v) = serde_cbor::value::to_value(u) else { return vec![] };
+    let V::Map(top) = &v else { return vec![] };
+    let Some(V::Map(names)) = top.get(&V::Text("names".into())) else { return vec![] };
+    let mut entries: Vec<(anything::Unit, i32, i32)> = Vec::new();
+    for (unit, state) in names {
+        let Ok(unit) = serde_cbor::value::from_value::<anything::Unit>(unit.clone()) else { return vec![] };
+        let V::Map(st) = state else { return vec![] };
+        let (Some(V::Integer(power)), Some(V::Integer(prefix))) = (st.get(&V::Text("power".into())), st.get(&V::Text("prefix".into()))) else { return vec![] };
+        entries.push((unit, *power as i32, *prefix as i32));
+    }
+    entries.sort_by(|a, b| a.0.cmp(&b.0));
+    entries
+        .into_iter()
+        .map(|(unit, power, prefix)| {
+            let single = anything::Compound::from_iter([(unit, (power.abs(), prefix))]);
+            UnitPart { numerator: power >= 0, singular: single.display(false).to_string(), plural: single.display(true).to_string() }
+        })
+        .collect()
 }
 
 fn eval_alone(db: &anything::Db, text: &str, describe: bool, detail: bool) -> (Vec<Res>, Vec<Desc>) {
@@ -862,7 +889,18 @@ fn load_phrases(phrases: &[String], file: &Option<String>, subset: &Option<Vec<u
 }
 
 /// Ask for one phrase and judge the answer against the words it was made of.
-fn own_words_ask(db: &anything::Db, phrase: &str, words: &[&str]) -> (Option<String>, Option<String>) {
+type Canon = (Vec<String>, String, String, String, String, Option<u64>);
+
+fn canon_of(d: &Desc) -> Canon {
+    (d.tokens.clone(), d.description.clone(), d.num.clone(), d.den.clone(), d.unit.clone(), d.source)
+}
+
+fn own_words_ask(db: &anything::Db, phrase: &str, words: &[&str], shipped: &std::collections::HashSet<Canon>, plain_first: bool) -> (Option<String>, Option<String>) {
+    if plain_first {
+        // the same words evaluated without descriptions first: what is described afterwards must
+        // still be a complete constant
+        let _ = eval_alone(db, phrase, false, false);
+    }
     let (results, descs) = eval_alone(db, phrase, true, false);
     let mut why = None;
     let mut winner = None;
@@ -883,6 +921,11 @@ fn own_words_ask(db: &anything::Db, phrase: &str, words: &[&str]) -> (Option<Str
                 why = Some(format!("value {num}/{den} {unit} is not the described constant's {}/{} {}", d.num, d.den, d.unit));
             }
         }
+        if why.is_none() && !shipped.contains(&canon_of(d)) {
+            // "decodes completely": words, description, value, unit and source together are those
+            // of one shipped constant
+            why = Some(format!("returned constant {:?} (description {:?}, source {:?}) is not, field for field, any shipped constant", d.tokens, d.description, d.source));
+        }
         winner = Some(d.description.clone());
     }
     (why, winner)
@@ -895,6 +938,7 @@ fn own_words(db: &anything::Db, s: &shipped::Shipped, perms: Perms, only: &Optio
     let mut winners: Vec<u8> = Vec::new();
     // (constant index, plain phrase of its words in shipped order, winner of the plain sweep)
     let mut plain: Vec<(usize, String, Option<String>)> = Vec::new();
+    let shipped_set: std::collections::HashSet<Canon> = s.constants.iter().map(|c| canon_of(&desc_of("", c, None))).collect();
     for (index, c) in s.constants.iter().enumerate() {
         if let Some(only) = only {
             if !only.contains(&index) {
@@ -924,7 +968,9 @@ fn own_words(db: &anything::Db, s: &shipped::Shipped, perms: Perms, only: &Optio
             let pw: Vec<&str> = order.iter().map(|i| words[*i]).collect();
             for (fi, phrase) in shipped::typed_forms(&pw).into_iter().enumerate() {
                 queries += 1;
-                let (why, winner) = own_words_ask(db, &phrase, &words);
+                // first contact of this handle with this phrase: for every other constant without
+                // descriptions first (whatever the handle remembers of a lookup must be complete)
+                let (why, winner) = own_words_ask(db, &phrase, &words, &shipped_set, (index + oi + fi) % 2 == 0);
                 if let Some(w) = &winner {
                     winners.extend_from_slice(phrase.as_bytes());
                     winners.push(0);
@@ -948,7 +994,7 @@ fn own_words(db: &anything::Db, s: &shipped::Shipped, perms: Perms, only: &Optio
             // only what the property states is judged (a constant carrying all the words, decoding
             // completely); whether it is the same constant as before is C14's and C18's business
             let _ = before;
-            let (why, _winner) = own_words_ask(db, phrase, &words);
+            let (why, _winner) = own_words_ask(db, phrase, &words, &shipped_set, how.starts_with("in a shuffled"));
             if let Some(why) = why {
                 if !fails.iter().any(|f| f.index == index && f.phrase == phrase) {
                     fails.push(OwnWordsFail { index, phrase: phrase.to_string(), why: format!("({how}) {why}") });
